@@ -130,6 +130,10 @@ class ForgedOracle(Oracle):
         self.processed_rpt = 0
         self.expect_close = None
         self.n_probe = 0
+        self.withhold = False
+        self.withheld = set()
+        self.retire_copies = {}
+        self.retire_lost_at = {}
 
     def on_start(self, sim):
         self.sim = sim
@@ -172,6 +176,7 @@ class ForgedOracle(Oracle):
         for c_ in conn._peer_cid_available:
             self.mine[c_.sequence_number] = bytes(c_.cid)
         self.model_current = conn._peer_cid.sequence_number
+        self.withhold = bool(self.ch.choose(2))
         self.switch_retired = set()
         self.cur_dcid = self.forger.current_dcid(self.peer)
         self.next_seq = max(self.mine) + 1
@@ -187,8 +192,20 @@ class ForgedOracle(Oracle):
         self.step()
 
     def acks(self):
+        """ACK what the target sent, EXCEPT (in withholding runs) the packet that carried the first copy
+        of each RETIRE_CONNECTION_ID: that packet is 'lost', so the retirement must be announced again."""
         largest = self.mon.state[self.target.name].largest["app"]
-        return wf.encode_ack([(0, largest)], 0) if largest >= 0 else b""
+        if largest < 0:
+            return b""
+        holes = sorted(pn for pn in self.withheld if pn <= largest)
+        ranges, lo = [], 0
+        for pn in holes:
+            if pn - 1 >= lo:
+                ranges.append((lo, pn - 1))
+            lo = pn + 1
+        if lo <= largest:
+            ranges.append((lo, largest))
+        return wf.encode_ack(ranges, 0) if ranges else b""
 
     def active_after(self, seq, rpt, cid):
         """model of the set of CIDs the target must hold after processing NCID(seq, rpt)"""
@@ -327,6 +344,11 @@ class ForgedOracle(Oracle):
                             acked.append(info)
                 elif f.type == wf.RETIRE_CONNECTION_ID:
                     self.retire_seen.add(f["seq"])
+                    n = self.retire_copies.get(f["seq"], 0) + 1
+                    self.retire_copies[f["seq"]] = n
+                    if n == 1 and self.withhold:
+                        self.withheld.add(p.pn)
+                        self.retire_lost_at[f["seq"]] = self.step_n
                 elif f.type == wf.NEW_CONNECTION_ID:
                     self.target_issued[f["seq"]] = bytes(f["cid"])
             for info in acked:
@@ -352,6 +374,14 @@ class ForgedOracle(Oracle):
         t = self.target
         if t.terminated or t.conn._state.name != "CONNECTED":
             return
+        # a RETIRE_CONNECTION_ID whose packet was never acknowledged (the forger withheld the ACK and
+        # acknowledged at least 6 later steps' packets) must have been announced again
+        for seq, at_step in self.retire_lost_at.items():
+            if self.step_n - at_step >= 8 and self.retire_copies.get(seq, 0) < 2:
+                raise Violation("c18.retire-not-repeated", "retire-not-resent-after-loss",
+                                "the packet carrying RETIRE_CONNECTION_ID(seq=%d) was never acknowledged (later packets "
+                                "were), yet the %s did not announce the retirement again; history %s" % (
+                                    seq, t.name, self.history[-10:]))
         # every CID the target had to abandon must have been announced as retired
         known_before = set(k for k in self.model_seen)
         for seq in sorted(known_before):
